@@ -72,7 +72,7 @@ Terminal == {"Done", "Raised"}
 
 NoTrial == [from |-> NoPt, rhoUsed |-> NoRho, lambUsed |-> -1, dt |-> -1, kind |-> "none",
             pt |-> NoPt, lambNext |-> -1, accepted |-> FALSE, cause |-> "none"]
-InnerInit == [k |-> 0, fault |-> FALSE, dl |-> FALSE, nev |-> 0, ls |-> 0, rd |-> 0, nh |-> 0, nf |-> 0]
+InnerInit == [k |-> 0, fault |-> FALSE, rcf |-> FALSE, dl |-> FALSE, nev |-> 0, ls |-> 0, rd |-> 0, nh |-> 0, nf |-> 0]
 PostInit == [n |-> FALSE, w |-> FALSE, p |-> FALSE]
 NoPen == [nextRho |-> NoRho, ok |-> FALSE, ynorm |-> 0, entry |-> <<0, 0>>]
 ClkInit == [t |-> 0, site |-> "none", expired |-> FALSE, fresh |-> FALSE, reads |-> 0]
@@ -240,7 +240,9 @@ TrialBegin(r, e) ==
         <<"P:C16", "rho.positive", Lt(cfg[r].zero, e.rhoUsed)>>,
         <<"P:C16", "rho.nondecreasing", hist[r] # <<>> => Le(Last(hist[r]).rhoUsed, e.rhoUsed)>>,
         <<"P:C16", "constant.unchanged", cfg[r].pen = "Constant" => e.rhoUsed = cfg[r].rho0>>,
-        <<"P:C16", "dualnorm.bound", cfg[r].pen = "DualNorm" => Le(e.rhoUsed, MaxR(cfg[r].rho0, ymax[r]))>>
+        <<"P:C16", "dualnorm.bound", cfg[r].pen = "DualNorm" => Le(e.rhoUsed, MaxR(cfg[r].rho0, ymax[r]))>>,
+        <<"P:C16", "dualnorm.used.x10", (cfg[r].pen = "DualNorm" /\ hist[r] # <<>>) =>
+                                           Le(e.rhoUsed, X10(r, Last(hist[r]).rhoUsed))>>
      >>)
   /\ trial' = [trial EXCEPT ![r] = [NoTrial EXCEPT !.from = e.from, !.rhoUsed = e.rhoUsed,
                                                    !.lambUsed = e.lambUsed, !.dt = e.dt]]
@@ -268,6 +270,7 @@ Lin(r, e) ==
         <<"P:C17", "lin.finite", e.raised = "none" => e.finite>>
      >>)
   /\ inner' = [inner EXCEPT ![r] = [@ EXCEPT !.fault = @ \/ (e.raised # "none" /\ e.phase = "trial"),
+                                            !.rcf = @ \/ (e.raised # "none" /\ e.phase = "rcond"),
                                             !.ls = IF Mode = "mc" THEN @ + 1 ELSE @,
                                             !.nf = IF e.op = "factor" /\ e.phase = "trial" THEN @ + 1 ELSE @]]
   /\ Step
@@ -452,6 +455,7 @@ Return(r, e) ==
   /\ Cl("M", "return.status", e.status = status[r])
   /\ Cl("M", "path.absent", ~cfg[r].collectPath => e.path = <<>>)
   /\ Cl(TwinTag(r), "twin.result", MemoOK(q, a))
+  /\ Cl(TwinTag(r), "twin.end.kind", <<cfg[r].algKey, "raise", cfg[r].limit, cfg[r].deadline>> \notin DOMAIN orc)
   /\ PS(<<
         <<"P:C06", "return.status.known", e.status \in Statuses>>,
         <<"P:C12", "return.iterations", e.iterations = iter[r]>>,
@@ -493,6 +497,7 @@ Raise(r, e) ==
   IN
   /\ Cl("M", "Raise.pc", pc[r] \notin (Terminal \cup {"Idle"}))
   /\ Cl(TwinTag(r), "twin.raise", MemoOK(q, e.kind))
+  /\ Cl(TwinTag(r), "twin.end.kind", <<cfg[r].algKey, "ret", cfg[r].limit, cfg[r].deadline>> \notin DOMAIN orc)
   /\ PS(<<
         <<"P:C06", "raise.deliberate", e.kind \in DeliberateErrs>>,
         <<"P:C06", "raise.initeval.legit", e.kind = "InitEval" => (pc[r] = "Init" /\ inner[r].fault)>>,
@@ -502,6 +507,7 @@ Raise(r, e) ==
         <<"P:C07", "init.fault.dedicated", (pc[r] = "Init" /\ inner[r].fault) => e.kind = "InitEval">>,
         <<"P:C07", "tainted.ends.deliberately", (pc[r] # "Init" /\ bad[r] # {}) => e.kind \in DeliberateErrs>>,
         <<"P:C07", "trial.fault.survived", (pc[r] \in {"InTrial", "Post"} /\ inner[r].fault) => e.kind = "LambMax">>,
+        <<"P:C07", "rcond.fault.survived", (pc[r] \in {"InTrial", "Post"} /\ inner[r].rcf) => e.kind = "LambMax">>,
         <<"P:C03", "wellposed.no.raise", ~cfg[r].wellposed>>,
         <<"P:C08", "deadline.never.raises", (dlx[r] /\ cfg[r].twin = "C08") => twinAlsoAborts>>,
         <<"P:C09", "observer.never.raises", e.kind \notin DeliberateErrs => ~(cfg[r].debug \/ disp[r])>>,
